@@ -504,7 +504,9 @@ class Simulation:
         inp_names = ['survey', 'model', 'max_workers', 'gridding',
                      'solver_opts', 'verb', 'name', 'info']
         cls_inp = {k: inp.pop(k) for k in inp_names}
-        cls_inp['gridding_opts'] = inp.pop('gridding_opts', {})
+        gopts = {'gridding_opts': inp.pop('gridding_opts', {})}
+        io._dict_deserialize(gopts)  # TensorMesh(es) if 'input' or 'dict'.
+        cls_inp['gridding_opts'] = gopts['gridding_opts']
         cls_inp['survey'] = surveys.Survey.from_dict(cls_inp['survey'])
         cls_inp['model'] = models.Model.from_dict(cls_inp['model'])
         input_sc2 = inp.pop('_input_sc2', False)
